@@ -761,6 +761,9 @@ func caseC13(c *Ctx) {
 		}
 		d := simfs.NewDisk(jail)
 		simfs.Install(d)
+		// "run alone": from the package-level state of a fresh process, not from what the
+		// history left there (a cache filled during the history would answer the reference too)
+		gtree.SimResetGlobals()
 		want := execCall(ref, root, filepath.Join(jail, "ref"), i, false, nil, "")
 		simfs.Uninstall()
 		c.st.Count("ops.compared")
@@ -770,6 +773,7 @@ func caseC13(c *Ctx) {
 				after := h.Model.Clone()
 				after.Kids = append(after.Kids, &MNode{Name: h.Name})
 				simfs.Install(simfs.NewDisk(jail))
+				gtree.SimResetGlobals()
 				want2 := execCall(&hCall{Kind: h.Kind, Op: h.Op, Prep: h.Prep, Model: after}, buildNode(after), filepath.Join(jail, "ref2"), i, false, nil, "")
 				simfs.Uninstall()
 				if h.Res.diff(want2) == "" {
